@@ -157,14 +157,14 @@ def enumerate_cases(meta, tier, seed, scheds):
                 offs = set(range(seed % step, size, step)) | set(st)
             # The top byte of a page's size prefix (frame + 6): a flip there makes ltx allocate up to 4 GiB.  Masks >= 0x04
             # run in a child process of their own (tcase.Solo in the driver); quick tier does that for three frames per
-            # file and uses mask 0x01 (16 MiB) for the others.
+            # file and flips the third size byte of the others.
             top = set(f + 6 for f in pf["frames"])
             fr = pf["frames"]
             solo_ok = top if tier == "thorough" else set(f + 6 for f in (fr[0], fr[len(fr) // 2], fr[-1]))
 
             def flip(o, mk, cls):
-                if o in top and mk >= 4 and o not in solo_ok:
-                    mk = 0x01
+                if o in top and o not in solo_ok:
+                    o += 2                  # quick tier: third byte of the size prefix instead (a few KiB, not MiB..GiB)
                 add(rid, "flip", file=fi, off=o, mask=mk, exp="any", cls=cls, solo=(o in top and mk >= 4))
 
             for o in sorted(offs):
@@ -441,7 +441,7 @@ def main():
             rep.notes.append("X1 reproduced in %d cases, e.g. %s" % (n_x1, x1_example))
 
         # ---- binding (model prediction vs real outcome), coverage
-        div, harmless, tmp_left, nontrivial = [], 0, 0, set()
+        div, harmless, tmp_left, short_sleep, nontrivial = [], 0, 0, 0, set()
         by_kind, err_classes, classes_hit = {}, {}, set()
         for o, c in zip(obs, cases):
             by_kind[o["kind"]] = by_kind.get(o["kind"], 0) + 1
@@ -457,6 +457,10 @@ def main():
                 div.append(o)
             if o["kind"] == "flip" and o["res"] == "ok":
                 harmless += 1
+            # R_BackoffLaw: k retries sleep 250 ms * (2^min(k, budget) - 1) in total (resumable_reader.go:177)
+            if o["kind"] == "readfault" and not any(f["kind"] == "gone" for f in c["faults"]):
+                if o["ms"] < 250 * (2 ** min(o["nf"], BUDGET) - 1) - 5:
+                    short_sleep += 1
             if o["res"] in ("ok", "error") and o["tmpExists"]:
                 tmp_left += 1
             reopened = len(o["opens"]) > len(set(x[0] for x in o["opens"]))
@@ -466,11 +470,13 @@ def main():
             rep.notes.append("DIVERGENCE module=Restore case=%s" % json.dumps({k: o[k] for k in ("rep", "kind", "file", "off", "mask", "integ", "pre", "nf", "exp", "res", "errc", "msg")})[:500])
         if tmp_left:
             rep.notes.append("DIVERGENCE module=Restore: %d restores returned with <output>.tmp still present" % tmp_left)
+        if short_sleep:
+            rep.notes.append("DIVERGENCE module=Restore: %d read-fault restores returned sooner than the model's back-off law allows" % short_sleep)
         want_classes = {("intact", ""), ("missing", ""), ("delete", ""), ("readfault", "")} | \
                        {(k, b) for k in ("trunc", "flip") for b in ("hdr", "page", "tail8", "tail")}
         if not replay_path and not want_classes <= classes_hit:
             rep.notes.append("model corruption classes without a real case: %s" % sorted(want_classes - classes_hit))
-        rep.cov["divergences"] = len(div) + (1 if tmp_left else 0)
+        rep.cov["divergences"] = len(div) + (1 if tmp_left else 0) + (1 if short_sleep else 0)
         rep.cov["cases_by_kind"] = by_kind
         rep.cov["error_classes"] = err_classes
         rep.cov["panics"] = info.get("crashes", 0)
